@@ -1985,7 +1985,7 @@ pub fn run_c27(ctx: Ctx, replay: Option<PathBuf>) -> i32 {
     let which = Which::C01;
     let mut opts_builtin = which.opts();
     opts_builtin.builtin = 150;
-    let n = ctx.tier.pick(40usize, 600usize);
+    let n = ctx.tier.pick(120usize, 600usize);
     let n = std::env::var("VERIF_N").ok().and_then(|s| s.parse().ok()).unwrap_or(n);
     let tapes: Vec<Vec<u8>> = match &replay_v {
         Some(v) => vec![tape::unhex(v["tape_hex"].as_str().unwrap_or(""))],
